@@ -82,7 +82,9 @@ LEVEL_TEXT = (
     "split, ...), slice or str(..., encoding) may be applied to the single piece on the way, because the pieces are cut where the read buffer ends; "
     "a list the pieces are collected in is joined with an empty separator, its elements as they are (not decoded or otherwise transformed one by one); "
     "uses of the payload that are not understood stop with ANALYSIS-ERROR. A window assignment that sits in a private helper is read per call site with the helper's "
-    "parameters replaced by the call's arguments; attributes assigned once in __init__ (a precomputed tail length / delimiter text) are read through; "
+    "parameters replaced by the call's arguments, and a window position that a helper (method, static method or module function, up to three levels) returns "
+    "is read through the helper in the same way (every return other than the constant 0 must denote the same `len(buffer) - K`; the buffer may be passed "
+    "as an argument; a helper that can delete buffer content is not followed); attributes assigned once in __init__ (a precomputed tail length / delimiter text) are read through; "
     "the buffer and the offset may be read through local copies. In _parse_data release positions are followed through locals, tuple assignments, "
     "match.span(), conditional expressions (their conditions count as guards) and one-expression helpers (read at the call site); the presence "
     "test and the threshold test may be held in a local or sit in such a helper; a position `m.start()` / `m.end()` is a match position when every "
@@ -300,66 +302,167 @@ def start_only_feeds_uncompared(repo, site: SearchSite) -> tuple[bool, str]:
 
 def rules_offset(ctx: Ctx, roles: Roles, pats: Patterns, folder: Folder) -> None:
     repo = ctx.repo
-    evals: dict[str, AffEval] = {}
+    evals: dict[tuple, AffEval] = {}
     windows: dict[str, tuple[FuncInfo, ast.AST, Lin, str]] = {}
 
-    def ev_of(fi: FuncInfo) -> AffEval:
-        if fi.qualname not in evals:
+    def ev_of(fi: FuncInfo, bufs: frozenset = frozenset()) -> AffEval:
+        """evaluator of one function; `bufs` = its parameters that are bound to the receive buffer by the call being followed"""
+        k = (fi.qualname, bufs)
+        if k not in evals:
             copies = {name for name, (attr, _) in attr_copies(fi).items() if attr == roles.buffer}  # `buffer = self.buffer`
-            evals[fi.qualname] = AffEval(fi, folder, {f"self.{roles.buffer}"} | copies, pats.nattr, init=(pats.init, pats.param))
-        return evals[fi.qualname]
+            evals[k] = AffEval(fi, folder, {f"self.{roles.buffer}"} | copies | set(bufs), pats.nattr, init=(pats.init, pats.param))
+        return evals[k]
+
+    def is_zero(x: ast.AST | None) -> bool:
+        return isinstance(x, ast.Constant) and x.value == 0 and not isinstance(x.value, bool)
+
+    def strip_clamp(e: ast.AST) -> ast.AST:
+        """a position that is clamped to 0, or replaced by 0 under some condition -> the position (0 is a valid offset whatever the
+        buffer holds, and `re` reads a negative one as 0)"""
+        while True:
+            e2 = strip_max0(e)
+            if isinstance(e2, ast.IfExp) and is_zero(e2.body) != is_zero(e2.orelse):
+                e2 = e2.orelse if is_zero(e2.body) else e2.body
+            if e2 is e:
+                return e
+            e = e2
+
+    def buf_params(callee: FuncInfo, call: ast.Call, caller: FuncInfo, caller_bufs: frozenset) -> frozenset:
+        """parameters of the callee that this call binds to the receive buffer itself (and that the callee never rebinds)"""
+        binding = bind_args(callee, call) or {}
+        stored = {x.id for x in walk_no_nested(callee.node) if isinstance(x, ast.Name) and isinstance(x.ctx, (ast.Store, ast.Del))}
+        return frozenset(p for p, a in binding.items() if p not in stored and p in callee.params
+                         and (ts.is_buf(a, caller) or (isinstance(a, ast.Name) and a.id in caller_bufs)))
+
+    def shifts(fi: FuncInfo, bufs: frozenset, seen: frozenset = frozenset()) -> bool:
+        """can running the function delete / replace buffer content (itself, or in a function of the package it calls)?"""
+        if fi.qualname in seen:
+            return False
+        for x in walk_no_nested(fi.node):
+            if (ts.is_buf(x, fi) or (isinstance(x, ast.Name) and x.id in bufs)) and ts._buffer_effect_node(x) == "shift":
+                return True
+            if isinstance(x, ast.Call):
+                callee = ts._callee(fi, x)
+                if callee is not None and shifts(callee, buf_params(callee, x, fi, bufs), seen | {fi.qualname}):
+                    return True
+        return False
+
+    def same_aff(a: Aff, b: Aff) -> bool:
+        return a.coef == b.coef and a.const == b.const
+
+    # frames of the calls being followed, outermost first: (caller, call, node of the call in the caller, buffer parameters of the caller)
+    Frames = t.Tuple[t.Tuple[FuncInfo, ast.Call, Node, frozenset], ...]
+
+    def returned_aff(fi: FuncInfo, call: ast.Call, at: Node, frames: Frames, bufs: frozenset, depth: int, allow_zero: bool) -> tuple[Aff, str] | None:
+        """the position a helper (method / static method / function of the module) returns for this call: every return that is not
+        the constant 0 must denote one affine value once the parameters are replaced by the call's arguments"""
+        callee = ts._callee(fi, call)
+        if callee is None or callee is fi or depth >= 3 or isinstance(callee.node, ast.AsyncFunctionDef) \
+                or any(isinstance(x, (ast.Yield, ast.YieldFrom)) for x in walk_no_nested(callee.node)):
+            return None
+        ccfg = cfg_of(callee)
+        rets = [p for p, _ in ccfg.exit.preds]
+        if not rets or any(not (p.kind == "stmt" and isinstance(p.ast, ast.Return) and p.ast.value is not None) for p in rets):
+            return None  # can fall off the end: None is not a position
+        if callee.module is not fi.module and len(call.args) + len(call.keywords) < len(bind_args(callee, call) or {}):
+            return None  # a default value would be read in the wrong module
+        cbufs = buf_params(callee, call, fi, bufs)
+        inner = frames + ((fi, call, at, bufs),)
+        found: tuple[Aff, str] | None = None
+        for r in rets:
+            v = r.ast.value  # type: ignore[union-attr]
+            if is_zero(v):
+                if not allow_zero:
+                    return None
+                continue
+            sub = value_aff(callee, v, r, inner, cbufs, depth + 1, allow_zero)
+            if sub is None or (found is not None and not same_aff(found[0], sub[0])):
+                return None
+            found = found or sub
+        if found is None:
+            return None
+        if "D" in found[0].coef and shifts(callee, cbufs):
+            return None  # the buffer length the helper measured is not the one the position is used against
+        return found[0], f" returned by {callee.qualname} ({callee.loc(callee.node)})" + found[1]
+
+    def value_aff(fi: FuncInfo, value: ast.AST, node: Node, frames: Frames, bufs: frozenset, depth: int = 0, allow_zero: bool = True) -> tuple[Aff, str] | None:
+        """an offset expression as an affine form over D = len(buffer), n = len(boundary) (and whatever stays opaque).
+
+        Clamps to 0 are dropped; a local is read where it was computed; a parameter of a helper is replaced by the argument of
+        the call that is being followed (one frame per level); a call of a helper that *returns* the position is replaced by what
+        the helper returns for these arguments."""
+        value = strip_clamp(value) if allow_zero else value
+        at = node
+        ev = ev_of(fi, bufs)
+        if allow_zero and isinstance(value, ast.Name):
+            # `p = len(buffer) - K` ... `if p < 0: p = 0` ... `offset = p`: the bindings other than the constant 0 (always a valid
+            # offset) must be one window expression, read where it was computed
+            rd0 = ev.rd
+            defs = rd0.reaching(node, value.id)
+            nz = [d for d in defs if not is_zero(d.value)]
+            if len(defs) > 1 and len(nz) == 1 and all(d.kind == "assign" and d.index is None and d.node is not None for d in defs):
+                d0 = nz[0]
+                if all(rd0.reaching(d0.node, x.id) == rd0.reaching(node, x.id) for x in ast.walk(d0.value) if isinstance(x, ast.Name) and x.id != value.id):
+                    value, at = strip_clamp(d0.value), d0.node
+        ev.opaque_at.clear()  # where the opaque parts of *this* value are evaluated
+        try:
+            a = ev.aff(value, at)
+        except NotAffine:
+            return None
+        via = ""
+        # calls of helpers that return (part of) the position
+        for s, e, e_at in [(s, ev.opaque.get(s), ev.opaque_at.get(s)) for s in a.coef if s.startswith("op:")]:
+            if not isinstance(e, ast.Call) or e_at is None:
+                continue
+            whole = allow_zero and a.coef == {s: 1} and a.const == 0  # the value *is* the helper's result
+            sub = returned_aff(fi, e, e_at, frames, bufs, depth, whole)
+            if sub is None:
+                return None
+            a = a.subst(s, sub[0])
+            via += sub[1]
+        # parameters of the helper we are in
+        names = [s for s in a.coef if s.startswith("name:")]
+        if names:
+            if not frames:
+                return None
+            caller, call, cnode, caller_bufs = frames[-1]
+            binding = bind_args(fi, call)
+            for s in names:
+                p = s[5:]
+                defs = ev.rd.reaching(at, p)
+                if binding is None or p not in binding or p not in fi.params or not defs or any(d.kind != "param" for d in defs):
+                    return None
+                sub = value_aff(caller, binding[p], cnode, frames[:-1], caller_bufs, depth, allow_zero and a.coef == {s: 1} and a.const == 0)
+                if sub is None:
+                    return None
+                if "D" in sub[0].coef and shifts(fi, bufs):
+                    return None  # the buffer length the caller measured is not the one the helper stores against
+                a = a.subst(s, sub[0])
+                via += sub[1]
+            via = f" called as `{norm(call)}` ({caller.loc(call)})" + via
+        return a, via
 
     def window_of(fi: FuncInfo, value: ast.AST, node: Node, key: str, stack: tuple = ()) -> str | None:
         """`len(buffer) - K` with K affine in the boundary length, computed after a search -> text of that search's pattern.
 
         When the assignment sits in a private helper, the helper's parameters are replaced by the arguments of the call
-        that is being followed (one level per frame of the call stack), and the search is looked for in the callers too."""
-        value = strip_max0(value)
-        at = node
-        if isinstance(value, ast.Name):
-            # `p = len(buffer) - K` ... `if p < 0: p = 0` ... `offset = p`: the bindings other than the constant 0 (always a valid
-            # offset) must be one window expression, read where it was computed
-            rd0 = ev_of(fi).rd
-            defs = rd0.reaching(node, value.id)
-            nz = [d for d in defs if not (isinstance(d.value, ast.Constant) and d.value.value == 0 and not isinstance(d.value.value, bool))]
-            if len(defs) > 1 and len(nz) == 1 and all(d.kind == "assign" and d.index is None and d.node is not None for d in defs):
-                d0 = nz[0]
-                if all(rd0.reaching(d0.node, x.id) == rd0.reaching(node, x.id) for x in ast.walk(d0.value) if isinstance(x, ast.Name) and x.id != value.id):
-                    value, at = strip_max0(d0.value), d0.node
-        try:
-            a = ev_of(fi).aff(value, at)
-        except NotAffine:
+        that is being followed (one level per frame of the call stack), and the search is looked for in the callers too.
+        When the value is what a helper returns, it is read through the helper in the same way (see value_aff)."""
+        frames: list = []
+        bufs: frozenset = frozenset()
+        ctxs = [(f, c, n) for f, c, n in stack]
+        for i, (caller, call, cnode) in enumerate(ctxs):
+            frames.append((caller, call, cnode, bufs))
+            callee = ctxs[i + 1][0] if i + 1 < len(ctxs) else fi
+            bufs = buf_params(callee, call, caller, bufs)
+        res = value_aff(fi, value, node, tuple(frames), bufs)
+        if res is None:
             return None
-        chain: list[tuple[FuncInfo, Node]] = [(fi, node)]
-        frames = list(stack)
-        via = ""
-        cur_fi, cur_node = fi, at
-        while frames:
-            names = [s for s in a.coef if s.startswith("name:")]
-            if not names:
-                break
-            caller, call, cnode = frames.pop()
-            binding = bind_args(cur_fi, call)
-            rd = ev_of(cur_fi).rd
-            for s in names:
-                p = s[5:]
-                defs = rd.reaching(cur_node, p)
-                if binding is None or p not in binding or p not in cur_fi.params or not defs or any(d.kind != "param" for d in defs):
-                    return None
-                try:
-                    sub = ev_of(caller).aff(strip_max0(binding[p]), cnode)
-                except NotAffine:
-                    return None
-                if "D" in sub.coef and any(ts._buffer_effect_node(x) == "shift" for x in walk_no_nested(cur_fi.node) if ts.is_buf(x, cur_fi)):
-                    return None  # the buffer length the caller measured is not the one the helper stores against
-                a = a.subst(s, sub)
-            via += f" called as `{norm(call)}` ({caller.loc(call)})"
-            cur_fi, cur_node = caller, cnode
-            chain.append((caller, cnode))
+        a, via = res
         if a.coef.get("D") != 1 or not a.only({"D", "n"}):
             return None
         # nearest search that dominates the assignment, in the function itself or else in the callers being followed
-        for lfi, lnode in chain + [(f, n) for f, _, n in reversed(frames)]:
+        for lfi, lnode in [(fi, node)] + [(f, n) for f, _, n in reversed(stack)]:
             cfg = cfg_of(lfi)
             doms = []
             for c, _, _ in windowed_searches(lfi):
